@@ -4,3 +4,4 @@ INVARIANT FaultsCaught
 INVARIANT DeviationsScoped
 INVARIANT LivermoreReserve
 CHECK_DEADLOCK FALSE
+INVARIANT Report
